@@ -22,6 +22,8 @@ func notify(n int64) hx.T         { return do(hx.C("ONotify", n)) }
 func query(n int64) hx.T          { return do(hx.C("OQuery", n)) }
 func queryAll() hx.T              { return do(hx.T{Name: "OQueryAll"}) }
 func stopDone(b bool) hx.T        { return do(hx.C("OStopDone", b)) }
+func hide(n int64) hx.T           { return do(hx.C("OHide", n)) }
+func show(n int64) hx.T           { return do(hx.C("OShow", n)) }
 
 // Exec runs one case against a fresh real NodeCtrl.  NodeCtrl.Start arms a 3 s wall-clock
 // timer that would run checkRetireSupport on its own; a case normally takes a few
@@ -57,6 +59,8 @@ func execOnce(items []hx.T) (obs []any, nontrivial bool, tags []string) {
 	obs = []any{}
 	state := "Working"
 	retiredSeen := map[int64]bool{}
+	hidden := map[int64]bool{}
+	retiredWhileHidden := false
 	for _, it := range items {
 		if it.Name != "Do" {
 			continue
@@ -96,6 +100,36 @@ func execOnce(items []hx.T) (obs []any, nontrivial bool, tags []string) {
 		case "OStopDone":
 			if len(evs) > 0 {
 				tg["stop-done-succ"] = true
+			}
+		case "OHide":
+			if seen[op.Int(0)] {
+				hidden[op.Int(0)] = true
+				tg["hide-hosted"] = true
+			}
+		case "OShow":
+			if hidden[op.Int(0)] {
+				tg["show-again"] = true
+			}
+			delete(hidden, op.Int(0))
+		}
+		if len(hidden) > 0 {
+			switch op.Name {
+			case "OCmd":
+				c := hx.AsTerm(op.Args[0]).Name
+				if (c == "CRetire" || c == "CWebRetire") && reply.Name == "ROk" {
+					tg["retire-accepted-while-a-service-hidden"] = true
+					retiredWhileHidden = true
+				}
+			case "OQuery", "OQueryAll":
+				tg["query-while-a-service-hidden"] = true
+			case "OSvcCmd", "ONotify":
+				if hidden[op.Int(0)] {
+					tg["retired-from-hidden-service"] = true
+				}
+			}
+		} else if retiredWhileHidden && op.Name == "OCmd" && reply.Name == "ROk" {
+			if c := hx.AsTerm(op.Args[0]).Name; c == "CRetire" || c == "CWebRetire" {
+				tg["retire-reissued-after-unhide"] = true
 			}
 		}
 		for _, e := range evs {
@@ -174,8 +208,31 @@ func randomOp(cfg *hx.Config, toks []int64) hx.T {
 		return notify(tok())
 	case p < 91:
 		return svcOther(tok())
-	default:
+	case p < 94:
 		return stopDone(r.Intn(4) > 0)
+	case p < 97:
+		return hide(tok())
+	default:
+		return show(tok())
+	}
+}
+
+// around wraps an operation: with some probability a hosted service is unresolvable exactly
+// while the operation is handled (hide before, show after - sometimes much later or never).
+func around(cfg *hx.Config, toks []int64, op hx.T, later *[]hx.T) []hx.T {
+	r := cfg.Rng
+	if len(toks) == 0 || r.Intn(4) != 0 {
+		return []hx.T{op}
+	}
+	t := hx.Pick(r, toks)
+	switch r.Intn(4) {
+	case 0: // comes back much later
+		*later = append(*later, show(t))
+		return []hx.T{hide(t), op}
+	case 1: // never comes back
+		return []hx.T{hide(t), op}
+	default:
+		return []hx.T{hide(t), op, show(t)}
 	}
 }
 
@@ -183,42 +240,51 @@ func randomOp(cfg *hx.Config, toks []int64) hx.T {
 func genStory(cfg *hx.Config) []hx.T {
 	r := cfg.Rng
 	items, toks, _ := genConfig(cfg)
+	var later []hx.T // deferred "show" operations of services hidden around an earlier command
 	noise := func() {
 		for r.Intn(3) == 0 {
 			items = append(items, randomOp(cfg, toks))
 		}
+		if len(later) > 0 && r.Intn(3) == 0 {
+			items = append(items, later...)
+			later = nil
+			if r.Intn(2) == 0 { // the operator's recovery path: retire again once everything is back
+				items = append(items, cmd("CRetire"))
+			}
+		}
 	}
+	add := func(op hx.T) { items = append(items, around(cfg, toks, op, &later)...) }
 	noise()
 	if r.Intn(4) == 0 { // acks arriving one by one, commands in between
 		for _, i := range r.Perm(len(toks)) {
-			items = append(items, query(toks[i]))
+			add(query(toks[i]))
 			noise()
 		}
 	} else {
-		items = append(items, queryAll())
+		add(queryAll())
 	}
 	noise()
-	items = append(items, cmd(hx.Pick(r, []string{"CRetire", "CRetire", "CWebRetire"})))
+	add(cmd(hx.Pick(r, []string{"CRetire", "CRetire", "CWebRetire"})))
 	noise()
 	for _, i := range r.Perm(len(toks)) {
 		if r.Intn(10) == 0 {
 			continue // one service never reports
 		}
 		if r.Intn(3) == 0 {
-			items = append(items, notify(toks[i]))
+			add(notify(toks[i]))
 		} else {
-			items = append(items, retired(toks[i]))
+			add(retired(toks[i]))
 		}
 		if r.Intn(5) == 0 {
 			items = append(items, retired(toks[i])) // repeated
 		}
 		noise()
 	}
-	items = append(items, cmd(hx.Pick(r, []string{"CExit", "CExit", "CWebExit"})))
+	add(cmd(hx.Pick(r, []string{"CExit", "CExit", "CWebExit"})))
 	noise()
 	if len(toks) > 0 && r.Intn(2) == 0 {
 		items = append(items, retired(hx.Pick(r, toks))) // late duplicate
-		items = append(items, cmd("CExit"))
+		add(cmd("CExit"))
 	}
 	noise()
 	items = append(items, stopDone(r.Intn(4) > 0))
@@ -286,6 +352,21 @@ func Run(cfg *hx.Config) error {
 		for L := 0; L <= d2; L++ {
 			enumerate(two, alpha2, L, func(c []hx.T) { emit(fmt.Sprintf("exhaustive-2svc-%s-%d", d, L), c) })
 		}
+	}
+	// resolvability changing under the controller: a service hidden / shown again at any point
+	d3 := 3
+	if cfg.Tier == "thorough" {
+		d3 = 5
+	}
+	hid1 := []hx.T{host(1, dOk)}
+	alphaH1 := []hx.T{hide(1), show(1), queryAll(), cmd("CRetire"), retired(1), cmd("CExit")}
+	for L := 0; L <= d3; L++ {
+		enumerate(hid1, alphaH1, L, func(c []hx.T) { emit(fmt.Sprintf("exhaustive-hide-1svc-%d", L), c) })
+	}
+	hid2 := []hx.T{host(1, dOk), host(2, dOk), queryAll()}
+	alphaH2 := []hx.T{hide(2), show(2), cmd("CRetire"), retired(1), retired(2), cmd("CExit")}
+	for L := 0; L <= d3; L++ {
+		enumerate(hid2, alphaH2, L, func(c []hx.T) { emit(fmt.Sprintf("exhaustive-hide-2svc-%d", L), c) })
 	}
 	for i := 0; i < cfg.N; i++ {
 		switch i % 4 {
